@@ -173,7 +173,7 @@ THEOREMS = [
     'C09.session_reply_last', 'C09.session_state_after_reset', 'C09.session_state_after_rebase',
     'C09.session_state_after_failed_reset', 'C09.session_chosen_units_one', 'C09.session_conversion_invariant',
     # rational exponents (Pa*m^0.5, MPa*m^(3/2), s^-1.5): rpow a parameter with the three laws of RpowLaws
-    'C09.rpow_rpow', 'C09.eval_dimension_hom_rpow', 'C09.eval_dimension_hom_ast_rpow', 'C09.same_dim_ratio_invariant_rpow',
+    'C09.rpow_rpow', 'C09.rpow_unique', 'C09.ratRpowE_exact', 'C09.rpow_agrees_with_driver', 'C09.eval_dimension_hom_rpow', 'C09.eval_dimension_hom_ast_rpow', 'C09.same_dim_ratio_invariant_rpow',
     'C09.set_get_inverse_parse_rpow', 'C09.dim_analysis_sound_rpow', 'C09.parse_rpow_extends', 'C09.track_rpow_extends',
     'C09.session_conversion_invariant_rpow', 'C09.session_chosen_units_one_rpow',
     # generated tables: numericalunits table facts, LAMMPS style tables
@@ -231,7 +231,9 @@ ASSUMPTIONS = [
     'of putting working units in force (the only way to move K alone)',
 ]
 TRUSTED = ['numericalunits (the generated table is measured from the installed package on every run)', 'numpy broadcasting',
-           'the rational power of the model driver (lean/Drivers/C09.lean ratRpow: integer Newton root, exact or 2^-200) and the '
+           'the rational power the model driver executes (Atomman/C09.lean ratRpowE: integer Newton root; where it reports an '
+           'exact result that result is proved to be the value of every law-abiding rpow — rpow_agrees_with_driver —, the '
+           'inexact branch is trusted to 2^-200) and the '
            'decimal power of the search oracle (python decimal, 60 digits) — two independent implementations compared with libm pow',
            'the size guard of the model driver (lean/Drivers/C09.lean: a request whose exact value would need > 2*10^5 bits is '
            'answered err:size and not compared; every other request is evaluated by the proved numAlg)',
